@@ -469,8 +469,8 @@ func c17Scenarios(cfg runCfg) []Scenario {
 	return out
 }
 
-// TestManyEmptyFilesChild only runs in the child process started by the C17 "many-empty-files" family: 400 empty
-// fail files (every other one a directory of that name) and one usable, still failing one, in a process that may have 128 files open and does not collect garbage.
+// TestManyEmptyFilesChild only runs in the child process started by the C17 "many-empty-files" family: 800 unusable
+// fail files (empty ones, directories of that name, binary files, text) and one usable, still failing one, in a process that may have 128 files open and does not collect garbage.
 func TestManyEmptyFilesChild(t *testing.T) {
 	if os.Getenv("C17_MANY_EMPTY") == "" {
 		t.Skip("not a C17 child")
@@ -486,13 +486,20 @@ func TestManyEmptyFilesChild(t *testing.T) {
 	for k, v := range saved {
 		_ = flag.Set(k, v)
 	}
-	for i := 0; i < 400; i++ {
+	binaries := [][]byte{append([]byte("\x7fELF\x02\x01\x01"), make([]byte, 57)...), []byte("\x1f\x8b\x08\x00\x00\x00\x00\x00\x00\x03garbage"), make([]byte, 4096), []byte("\x00\x01\x02\x03\n\x04"), []byte("\xff\xfe\x00#\x001\x00")}
+	for i := 0; i < 800; i++ {
 		p := writeFailFile(t.Name(), fmt.Sprintf("20200101%06d-%d", i, i), ver, 1, nil, "")
 		_ = os.WriteFile(p, nil, 0o644)
-		if i%2 == 1 {
+		switch i % 4 {
+		case 1:
 			// not even a file: a directory with the name of a fail file is as unusable, and as harmless
 			_ = os.Remove(p)
 			_ = os.Mkdir(p, 0o755)
+		case 2:
+			// binary files (an executable, a gzip stream, zeros, control bytes, UTF-16) that ended up under that name
+			_ = os.WriteFile(p, binaries[(i/4)%len(binaries)], 0o644)
+		case 3:
+			_ = os.WriteFile(p, []byte("this is not a fail file\nat all\n"), 0o644)
 		}
 	}
 	writeFailFile(t.Name(), "20260101000000-1", ver, 1, []uint64{7, 7, 7, 7}, "still fails")
@@ -505,6 +512,18 @@ func TestManyEmptyFilesChild(t *testing.T) {
 	fmt.Println("MANY-EMPTY-CHILD-RAN")
 	rapid.Check(t, func(rt *rapid.T) {
 		rapid.Uint8().Draw(rt, "v")
+		// the property needs a few file descriptors of its own
+		var fs []*os.File
+		for i := 0; i < 8; i++ {
+			f, err := os.Open(os.Args[0])
+			if err != nil {
+				rt.Fatalf("the property cannot open a file: %v", err)
+			}
+			fs = append(fs, f)
+		}
+		for _, f := range fs {
+			f.Close()
+		}
 		if rapid.VerifStreamOf(rt).Kind == "buffer" {
 			rt.Fatalf("the saved test case still fails")
 		}
@@ -564,10 +583,10 @@ func c17Run(t *testing.T, sc Scenario, res *Result) {
 		switch {
 		case !strings.Contains(text, "MANY-EMPTY-CHILD-RAN") || strings.Contains(text, "test timed out"):
 			res.inconclusive("many-empty-files child did not run: " + clip(text, 300))
-		case strings.Count(text, "ignoring fail file") != 400:
-			res.violate(sc, "c17/many-empty-log", fmt.Sprintf("400 empty fail files but %d 'ignoring fail file' log lines: %s", strings.Count(text, "ignoring fail file"), clip(text[len(text)*2/3:], 400)), nil)
+		case strings.Count(text, "ignoring fail file") != 800:
+			res.violate(sc, "c17/many-empty-log", fmt.Sprintf("800 unusable fail files (empty, directories, binary, text) but %d 'ignoring fail file' log lines: %s", strings.Count(text, "ignoring fail file"), clip(text[len(text)*2/3:], 400)), nil)
 		case !strings.Contains(text, "failed after 0 tests: the saved test case still fails"):
-			res.violate(sc, "c17/many-empty-verdict", "with 400 empty fail files in front of it (and 128 file descriptors), the usable fail file was not replayed: "+clip(text[len(text)*2/3:], 500), nil)
+			res.violate(sc, "c17/many-empty-verdict", "with 800 unusable fail files in front of it (and 128 file descriptors), the usable fail file was not replayed: "+clip(text[len(text)*2/3:], 500), nil)
 		default:
 			res.inc("many_empty_files_children")
 		}
